@@ -12,7 +12,7 @@ use crate::{
         kinds::{self, FileSpec, Kind, Made},
     },
     kernel::{Check, Finding, Fnv, Rng, RunCtx, Tier, Violation, prng},
-    seams::read::ReadPlan,
+    seams::read::{Chunking, ReadPlan},
 };
 
 pub struct C13;
@@ -33,6 +33,26 @@ pub struct Plan {
     /// reading-protocol variants to use (all if empty)
     pub variants: Vec<u8>,
     pub cuts: Cuts,
+    /// 0: the surviving bytes are delivered in full reads; otherwise the seed of a short-read pattern
+    /// (a truncated file read through a pipe / small buffer): the verdict must be the same
+    #[serde(default)]
+    pub delivery: u64,
+}
+
+fn delivery_chunking(seed: u64, len: usize) -> Chunking {
+    if seed == 0 {
+        return Chunking::Full;
+    }
+    let mut r = Rng::new(seed);
+    if len <= 6000 {
+        match r.below(3) {
+            0 => Chunking::One,
+            1 => Chunking::Random { max: 2 + r.usize_below(7), seed: r.next_u64() },
+            _ => Chunking::Random { max: 20 + r.usize_below(300), seed: r.next_u64() },
+        }
+    } else {
+        Chunking::Random { max: 500 + r.usize_below(5000), seed: r.next_u64() }
+    }
 }
 
 pub fn cut_class(made: &Made, k: usize) -> &'static str {
@@ -268,6 +288,7 @@ impl Check for C13 {
             file,
             variants: Vec::new(),
             cuts,
+            delivery: if rng.chance(1, 4) { rng.next_u64() | 1 } else { 0 },
         })
         .unwrap()
     }
@@ -309,6 +330,8 @@ impl Check for C13 {
         let mut findings: Vec<Finding> = Vec::new();
         let mut seen_sig: std::collections::BTreeSet<String> = Default::default();
         let all = matches!(cuts, Cuts::All);
+        let chunking = delivery_chunking(p.delivery, len);
+        ctx.stats.probe_if("truncated_file_read_through_short_reads", p.delivery != 0);
         for (ci, &k) in ks.iter().enumerate() {
             // all variants on exhaustive small files; rotate otherwise
             let vs: Vec<u8> = if all || ks.len() < 50 {
@@ -323,6 +346,7 @@ impl Check for C13 {
                         file: p.file.clone(),
                         variants: vec![v],
                         cuts: Cuts::List(vec![k]),
+                        delivery: p.delivery,
                     })
                     .unwrap()
                 };
@@ -330,7 +354,10 @@ impl Check for C13 {
                     continue;
                 }
                 let d = Delivery {
-                    read: ReadPlan::cut(k),
+                    read: ReadPlan {
+                        chunking: chunking.clone(),
+                        ..ReadPlan::cut(k)
+                    },
                     wrap: Wrap::Direct,
                 };
                 let (src, _c) = d.open(made.bytes.clone());
@@ -375,6 +402,7 @@ impl Check for C13 {
                                 file: p.file.clone(),
                                 variants: vec![v],
                                 cuts: Cuts::List(vec![k]),
+                                delivery: p.delivery,
                             })
                             .unwrap(),
                         });
@@ -405,6 +433,11 @@ impl Check for C13 {
             return Vec::new();
         };
         let mut out = Vec::new();
+        if p.delivery != 0 {
+            let mut q = p.clone();
+            q.delivery = 0;
+            out.push(serde_json::to_value(q).unwrap());
+        }
         // a smaller file of the same kind with all cuts (the minimiser keeps it only if the same
         // signature shows up again)
         for sc in 0..p.file.size_class {
